@@ -6,7 +6,7 @@ R  i128_div_rounded(x, y, mode)                = RoundSpec(mode, x / y)         
 then Decimal::round / checked_round per (p, n) cell using the proved summary R.
 """
 from ..absint import Interp, Opts, Agg, Int, K, OPTION, none, some, NEG, ZERO, POS, NONNEG, NONPOS
-from ..harness import (M, SCALES_ALL, dec_val, dec_parts, opt_parts, poly_eq, show_outcome, show_poly, get_db, run_jobs, notes_of)
+from ..harness import (dec_coeff, M, SCALES_ALL, dec_val, dec_parts, opt_parts, poly_eq, show_outcome, show_poly, get_db, run_jobs, notes_of)
 from ..db import span_str
 from ..poly import padd, pscale, pconst, pmul, pneg, pfreeze, patom
 from .. import rounding
@@ -168,7 +168,7 @@ def job_round(db, job):
     st = I.new_state()
     lo, hi = {'any': (-M, M), 'neg': (-M, -1), 'zero': (0, 0), 'pos': (1, M)}[xcls]
     d = dec_val(st, 'x', p, lo, hi)
-    x = d.fields[0]
+    x = dec_coeff(d)
     I.call_root(st, fn, [d, K(n, 'i8')])
     outs = I.explore(st)
     checked = meth == 'checked_round'
